@@ -124,6 +124,8 @@ RUNNER_HEAD = r'''
 
 /* per-context platform state: two independent instances (C17 runs two contexts interleaved) */
 struct plat {
+	unsigned char pre_[64];       /* the user data pointer given to barectf_init() (this structure) is NOT the address of the
+	                                 context: the tracer must not confuse `ctx->data` with the context */
 	struct %(sctx)s sctx_;
 	unsigned char guard_[2048];   /* footprint canary: a call on this context must not write past the context structure */
 	uint64_t clk_; uint64_t incs_[4096]; unsigned nincs_, iinc_;
@@ -258,11 +260,11 @@ static void on_trap(int sig, siginfo_t *si, void *uc_) {
 	if (watch && w_lo) mprotect(w_lo, w_len, PROT_READ);
 }
 static void ret(const char *api) {
-	oprintf("ret %%s at=%%u ps=%%u full=%%d empty=%%d disc=%%u seq=%%u open=%%d f=%%d en=%%d bs=%%u\n", api,
+	oprintf("ret %%s at=%%u ps=%%u full=%%d empty=%%d disc=%%u seq=%%u open=%%d f=%%d en=%%d bs=%%u uc=%%d\n", api,
 		(unsigned) CTX->at, (unsigned) %(p)spacket_size(CTX), %(p)spacket_is_full(CTX), %(p)spacket_is_empty(CTX),
 		(unsigned) %(p)sdiscarded_event_records_count(CTX), (unsigned) %(p)spacket_sequence_number(CTX),
 		%(p)spacket_is_open(CTX), %(p)sis_in_tracing_section(CTX), %(p)sis_tracing_enabled(CTX),
-		(unsigned) %(p)spacket_buf_size(CTX));
+		(unsigned) %(p)spacket_buf_size(CTX), (int) CTX->use_cur_last_event_ts);
 	if (%(p)spacket_events_discarded(CTX) != %(p)sdiscarded_event_records_count(CTX)) oprintf("accessor-mismatch\n");
 	{ unsigned gi; for (gi = 0; gi < sizeof(P->guard_); gi++) if (P->guard_[gi] != 0x5c) { oprintf("ctx-overrun +%%u\n", gi); P->guard_[gi] = 0x5c; break; } }
 }
@@ -290,7 +292,7 @@ static void run_history(char **lines, unsigned nl) {
 			   to initialise must be initialised by it; the members it leaves alone by design (content size, content
 			   offset, saved offsets, last clock sample: written by the first opening / tracing call before they are read
 			   on any documented call order) get the value the Lean model gives them */
-			memset(&sctx, 0xa5, sizeof(sctx)); memset(P->guard_, 0x5c, sizeof(P->guard_));
+			memset(&sctx, 0xa5, sizeof(sctx)); memset(P->guard_, 0x5c, sizeof(P->guard_)); memset(P->pre_, 0xff, sizeof(P->pre_));
 			%(p)sinit(&sctx, alloc_buf(n), (uint32_t) n, cbs, P);
 			CTX->off_content = 0; CTX->content_size = 0;%(resetts)s
 			break;
